@@ -133,7 +133,13 @@ pub fn gen_batch_case(check: &str, seed: u64, family: &str, tier: Tier, with_fil
     for qid in 0..nq {
         let (q, _) = gen_query(&mut r, &w, &pc, qid, true);
         let b = r.below(n_batches as u64) as usize;
-        batches[b].push(q);
+        if r.chance(0.04) && q.is_object() {
+            // a batch member that is itself a list of queries (a nested batch: every element is answered)
+            let (q2, _) = gen_query(&mut r, &w, &pc, 1000 + qid, true);
+            batches[b].push(if q2.is_object() { json!([q, q2]) } else { json!([q]) });
+        } else {
+            batches[b].push(q);
+        }
     }
     batches.retain(|b| !b.is_empty());
     if batches.len() >= 2 && w.out.is_some() && r.chance(0.4) {
